@@ -20,6 +20,7 @@ type C08Case struct {
 	N       int   `json:"n"`        // negotiated interval, seconds
 	Periods int   `json:"periods"`  // horizon in periods
 	LogonAt int64 `json:"logon_at"` // initiator: virtual ns at which the peer's Logon arrives
+	Silence bool  `json:"silence"`  // the peer falls silent once, long enough to be probed
 }
 
 var stdIntervals = []int{1, 2, 3, 5, 10, 20, 30, 60}
@@ -33,19 +34,30 @@ type timeline struct {
 	now    int64
 	lastIn int64
 	keep   int64 // keep-alive period of the peer (0: the peer is silent)
+	// the peer says nothing in [silentFrom, silentTo): long enough for the
+	// session to probe it, short enough not to be disconnected
+	silentFrom, silentTo int64
+}
+
+func (tl *timeline) nextKeep() int64 {
+	k := tl.lastIn + tl.keep
+	if tl.silentTo > 0 && k >= tl.silentFrom && k < tl.silentTo {
+		k = tl.silentTo
+	}
+	return k
 }
 
 func (tl *timeline) advanceTo(t int64) {
 	for tl.now < t {
 		next := t
-		if tl.keep > 0 && tl.lastIn+tl.keep < next {
-			next = tl.lastIn + tl.keep
+		if tl.keep > 0 && tl.nextKeep() < next {
+			next = tl.nextKeep()
 		}
 		if next > tl.now {
 			tl.steps = append(tl.steps, rig.Step{Op: "advance", Dt: next - tl.now})
 			tl.now = next
 		}
-		if tl.keep > 0 && tl.now >= tl.lastIn+tl.keep {
+		if tl.keep > 0 && tl.now >= tl.nextKeep() {
 			tl.steps = append(tl.steps, rig.Step{Op: "in", In: tl.g.heartbeat("")})
 			tl.lastIn = tl.now
 		}
@@ -111,8 +123,17 @@ func genC08(t *rapid.T) *C08Case {
 			}
 		}
 	}
+	if rapid.IntRange(0, 9).Draw(t, "silence") < 3 && c.Periods >= 6 {
+		T := int64(tolT(n))
+		tl.silentFrom = start + N*int64(rapid.IntRange(1, c.Periods-4).Draw(t, "silentFrom"))
+		tl.silentTo = tl.silentFrom + T + T/10 + rapid.Int64Range(int64(time.Millisecond), T/20).Draw(t, "silentExtra")
+		c.Silence = true
+	}
 	sort.SliceStable(evs, func(i, j int) bool { return evs[i].at < evs[j].at })
 	for i, e := range evs {
+		if e.kind == "testreq" && tl.silentTo > 0 && e.at >= tl.silentFrom-N && e.at < tl.silentTo {
+			continue // the peer is silent then
+		}
 		tl.advanceTo(e.at)
 		if e.kind == "send" {
 			tl.steps = append(tl.steps, rig.Step{Op: "send", ID: fmt.Sprintf("app%d", i)})
@@ -168,14 +189,18 @@ func checkC08(c *C08Case, rec *evid.Rec) (vs []pbt.Violation) {
 		return []pbt.Violation{pbt.V("harness:not-logged", "logon did not succeed")}
 	}
 	prev := t0
+	prevStrict := t0 // latest outbound instant strictly before the current message's (same-instant rule)
 	for k, o := range outs {
+		if k > 0 && outs[k-1].At < o.At {
+			prevStrict = outs[k-1].At
+		}
 		gap := o.At - prev
 		if gap > bound {
 			vs = append(vs, pbt.V("silent-too-long", "N=%ds: nothing was transmitted between %v and %v (%v > N+N/10)", c.N, prev, o.At, gap))
 			break
 		}
-		if o.Type == rig.THeartbeat && !solicited[k] && k > 0 && gap < N {
-			vs = append(vs, pbt.V("heartbeat-too-early", "N=%ds: unsolicited Heartbeat at %v, only %v after the previous outbound message at %v", c.N, o.At, gap, prev))
+		if o.Type == rig.THeartbeat && !solicited[k] && k > 0 && o.At-prevStrict < N {
+			vs = append(vs, pbt.V("heartbeat-too-early", "N=%ds: unsolicited Heartbeat at %v, only %v after the previous outbound message at %v", c.N, o.At, o.At-prevStrict, prevStrict))
 			break
 		}
 		if o.Type == rig.THeartbeat && !solicited[k] && k == 0 && o.At-t0 < N {
@@ -202,6 +227,9 @@ func checkC08(c *C08Case, rec *evid.Rec) (vs []pbt.Violation) {
 	}
 	if idle {
 		rec.Hist("consecutive-heartbeats")
+	}
+	if c.Silence {
+		rec.Hist("peer-silent-until-probed")
 	}
 	rec.Hist(fmt.Sprintf("N<=%d", bucket(c.N)))
 	rec.Extra("outbound_messages_judged", int64(len(outs)))
